@@ -52,6 +52,11 @@ fn real_recv_new(sid: &[u8], tape: &[u8]) -> Option<(EndemicOTReceiver, Vec<u8>,
         let mut rng = TapeRng::new(tape.to_vec());
         let mut msg1 = EndemicOTMsg1::default();
         let r = EndemicOTReceiver::new(sid, &mut msg1, &mut rng);
+        // out-buffer probe: the same call into a pre-filled message buffer
+        let mut dirty = EndemicOTMsg1::default();
+        bytemuck::bytes_of_mut(&mut dirty).iter_mut().for_each(|b| *b = crate::report::dirty_fill(tape));
+        let _ = EndemicOTReceiver::new(sid, &mut dirty, &mut TapeRng::new(tape.to_vec()));
+        if bytemuck::bytes_of(&dirty) != bytemuck::bytes_of(&msg1) { crate::report::outbuf_dependence("EndemicOTReceiver::new(msg1)"); }
         (r, bytemuck::bytes_of(&msg1).to_vec(), rng.used)
     })).ok()
 }
@@ -62,6 +67,11 @@ fn real_send(sid: &[u8], msg1: &[u8], tape: &[u8]) -> Option<(Option<Vec<(Key, K
         let m1: EndemicOTMsg1 = bytemuck::pod_read_unaligned(msg1);
         let mut msg2 = EndemicOTMsg2::default();
         let r = EndemicOTSender::process(sid, &m1, &mut msg2, &mut rng);
+        if r.is_ok() {
+            let mut dirty = EndemicOTMsg2::default();
+            bytemuck::bytes_of_mut(&mut dirty).iter_mut().for_each(|b| *b = crate::report::dirty_fill(tape));
+            if EndemicOTSender::process(sid, &m1, &mut dirty, &mut TapeRng::new(tape.to_vec())).is_ok() && bytemuck::bytes_of(&dirty) != bytemuck::bytes_of(&msg2) { crate::report::outbuf_dependence("EndemicOTSender::process(msg2)"); }
+        }
         (r.ok().map(|o| o.verif_keys()), bytemuck::bytes_of(&msg2).to_vec(), rng.used)
     })).ok()
 }
